@@ -110,14 +110,18 @@ func (r *RibEntry) pruneIfEmpty() {
 }
 
 func (r *RibEntry) updateNexthopsEnc() {
-	FibStrategyTable.ClearNextHopsEnc(r.Name)
+	// Nodes without a name only fill the path to longer prefixes and own no FIB entry
+	if r.Name != nil {
+		FibStrategyTable.ClearNextHopsEnc(r.Name)
+	}
 
 	// All routes including parents if needed
 	routes := append([]*Route{}, r.routes...)
 
 	// Get all possible nexthops for parents that are inherited,
-	// unless we have the capture flag set
-	if !r.HasCaptureRoute() {
+	// unless we have the capture flag set. A prefix without routes of its own
+	// contributes nothing: lookups fall through to the nearest prefix that has routes.
+	if len(r.routes) > 0 && !r.HasCaptureRoute() {
 		for entry := r; entry != nil; entry = entry.parent {
 			for _, route := range entry.routes {
 				if route.HasChildInheritFlag() {
